@@ -174,6 +174,10 @@ func (k Keeper) swapOutAmtGivenIn(
 	if err != nil {
 		return sdk.Coin{}, sdk.Coin{}, PoolUpdates{}, err
 	}
+	// the swap stopped at the price limit before the stated input was consumed: an exact-input swap is not filled partially
+	if !swapResult.AmountIn.Equal(tokenIn.Amount) {
+		return sdk.Coin{}, sdk.Coin{}, PoolUpdates{}, types.ErrInsufficientLiquidity
+	}
 	tokenIn = sdk.NewCoin(tokenIn.Denom, swapResult.AmountIn)
 	tokenOut := sdk.NewCoin(denomOut, swapResult.AmountOut)
 
@@ -200,6 +204,10 @@ func (k *Keeper) swapInAmtGivenOut(
 	swapResult, poolUpdates, err := k.computeInAmtGivenOut(ctx, desiredTokenOut, denomIn, feeRate, multipliedPriceLimit, pool.GetId(), true)
 	if err != nil {
 		return sdk.Coin{}, sdk.Coin{}, PoolUpdates{}, err
+	}
+	// the swap stopped at the price limit before the stated output was reached: an exact-output swap is not filled partially
+	if !swapResult.AmountOut.Equal(desiredTokenOut.Amount) {
+		return sdk.Coin{}, sdk.Coin{}, PoolUpdates{}, types.ErrInsufficientLiquidity
 	}
 	tokenIn := sdk.NewCoin(denomIn, swapResult.AmountIn)
 	tokenOut := sdk.NewCoin(desiredTokenOut.Denom, swapResult.AmountOut)
@@ -236,6 +244,10 @@ func (k Keeper) CalculateResultExactAmountIn(
 	if err != nil {
 		return math.ZeroInt(), err
 	}
+	// same rule as the swap itself: no quote for an input the pool cannot consume in full
+	if !swapResult.AmountIn.Equal(tokenIn.Amount) {
+		return math.ZeroInt(), types.ErrInsufficientLiquidity
+	}
 	return swapResult.AmountOut, nil
 }
 
@@ -257,6 +269,10 @@ func (k Keeper) CalculateResultExactAmountOut(
 	swapResult, _, err := k.computeInAmtGivenOut(cacheCtx, tokenOut, denomIn, feeRate, unboundedPriceLimit, pool.Id, false)
 	if err != nil {
 		return math.ZeroInt(), err
+	}
+	// same rule as the swap itself: no quote for an output the pool cannot deliver in full
+	if !swapResult.AmountOut.Equal(tokenOut.Amount) {
+		return math.ZeroInt(), types.ErrInsufficientLiquidity
 	}
 	return swapResult.AmountIn, nil
 }
